@@ -2,11 +2,8 @@ use crate::{fmt_list, parse_list, Ctx, Rng};
 use sux::prelude::*;
 use sux::traits::*;
 
-/// executable statement of C02 over every selection structure compiled by default: select(r) / select_zero(r) agree with the
-/// naive scan of the logical contents for every rank (None from the count on), for vectors with stale storage beyond the length.
-/// input: [len, pushed_before_pops (>= len), density per 100000, seed]
-fn case(inp: &[u64]) -> Result<(), String> {
-    let (len, total, dens, seed) = (inp[0] as usize, (inp[1] as usize).max(inp[0] as usize), inp[2], inp[3]);
+/// the bit vector of a case: `total` pushes (random with density dens / 100000, or a boundary-directed pattern for dens >= 1_000_000), then pops down to len
+fn make_bits(len: usize, total: usize, dens: u64, seed: u64) -> BitVec {
     let mut rng = Rng(seed);
     let mut b = BitVec::new(0);
     if dens >= 1_000_000 {
@@ -21,6 +18,15 @@ fn case(inp: &[u64]) -> Result<(), String> {
     for _ in 0..total { b.push(rng.below(100_000) < dens); }
     }
     for _ in 0..total - len { b.pop(); }
+    b
+}
+
+/// executable statement of C02 over every selection structure compiled by default: select(r) / select_zero(r) agree with the
+/// naive scan of the logical contents for every rank (None from the count on), for vectors with stale storage beyond the length.
+/// input: [len, pushed_before_pops (>= len), density per 100000, seed]
+fn case(inp: &[u64]) -> Result<(), String> {
+    let (len, total, dens, seed) = (inp[0] as usize, (inp[1] as usize).max(inp[0] as usize), inp[2], inp[3]);
+    let b = make_bits(len, total, dens, seed);
     let ones: Vec<usize> = (0..len).filter(|&i| b[i]).collect();
     let zeros: Vec<usize> = (0..len).filter(|&i| !b[i]).collect();
     let probe = |v: &Vec<usize>| -> Vec<usize> {
@@ -108,6 +114,13 @@ fn big_case(inp: &[u64]) -> Result<(), String> {
         if $sel { for &r in &rs { let g = s.select(r); if g != Some(ones[r]) { return Err(format!("{}: select({}) = {:?} expected {}", $name, r, g, ones[r])); } } }
         if $selz { for &r in &zs { let g = s.select_zero(r); let w = zero_at(r); if g != Some(w) { return Err(format!("{}: select_zero({}) = {:?} expected {}", $name, r, g, w)); } } }
     }} }
+    // A-SEL (inv of select.lookup) on structures with 64-bit spans; the backend is swapped for a tiny one before the fields are rendered
+    for (l, m) in [(9usize, 0usize), (11, 2), (14, 1), (16, 3)] {
+        let nb: AddNumBits<BitVec> = b.clone().into();
+        let s = unsafe { SelectAdapt::with_inv(nb, l, m).map(|_| -> AddNumBits<BitVec> { BitVec::new(1).into() }) };
+        let nbits = len.div_ceil(64) * 64;
+        check_adapt_inv_with(&format!("SelectAdapt::with_inv({},{}) over 2^32 bits", l, m), &format!("{:?}", s), nbits, ones.len(), &|p| ones.partition_point(|&x| x < p), &|p| ones.binary_search(&p).is_ok())?;
+    }
     chk!("SelectZeroSmall(SelectSmall(RankSmall<2,9>))", SelectZeroSmall::<2, 9, _>::new(SelectSmall::<2, 9, _>::new(RankSmall::<2, 9, _>::new(b.clone()))), true, true);
     chk!("SelectZeroSmall(SelectSmall(RankSmall<1,11>))", SelectZeroSmall::<1, 11, _>::new(SelectSmall::<1, 11, _>::new(RankSmall::<1, 11, _>::new(b.clone()))), true, true);
     chk!("SelectZeroSmall(SelectSmall(RankSmall<3,13>))", SelectZeroSmall::<3, 13, _>::new(SelectSmall::<3, 13, _>::new(RankSmall::<3, 13, _>::new(b.clone()))), true, true);
@@ -126,6 +139,8 @@ pub fn run(case_name: &str, ctx: &mut Ctx, one: Option<&str>, rng: &mut Rng, bud
         for v in [vec![4096u64, 400_000, 5], vec![1 << 30, 3_000_000, 9]] { if budget < 1000 && v[0] > 5000 { continue; } let s = fmt_list(&v); ctx.trial(&s, false, || big_case(&v)); }
         return;
     }
+    let inv_mode = case_name == "select_inv";
+    let case = |v: &[u64]| -> Result<(), String> { if inv_mode { inv_case(v) } else { case(v) } };
     if let Some(s) = one { let inp = parse_list(s); ctx.trial(s, false, || case(&inp)); return; }
     for len in [0u64, 1, 63, 64, 65, 127, 128, 129, 1000, 8192, 20000, 70000, 1 << 20, (1 << 21) + 77] { for dens in [0u64, 100_000, 50_000, 500, 2000, 12_500, 99_500, 30, 3] { for extra in [0u64, 700] {
         let v = vec![len, len + extra, dens, 3 + len + dens]; let s = fmt_list(&v); ctx.trial(&s, false, || case(&v));
@@ -149,4 +164,96 @@ pub fn run(case_name: &str, ctx: &mut Ctx, one: Option<&str>, rng: &mut Rng, bud
         let v = vec![len, len + rng.below(3) * rng.below(2000), [0, 1, 3, 30, 100, 500, 2000, 6000, 12_500, 50_000, 90_000, 99_900, 99_999, 100_000][rng.below(14) as usize], rng.next()];
         let s = fmt_list(&v); ctx.trial(&s, false, || case(&v));
     }
+}
+
+// ---- select_inv: the executable copy of `inv()` of unit select.lookup (assumption A-SEL), evaluated on the fields of real structures ----
+// The fields are private; they are read from the `Debug` rendering of the structure (derived, prints every field).
+fn dbg_list(s: &str, field: &str) -> Result<Vec<usize>, String> {
+    let key = format!("{}: [", field);
+    let a = s.rfind(&key).ok_or_else(|| format!("field {} not found in Debug output", field))? + key.len();
+    let b = a + s[a..].find(']').ok_or("unterminated list")?;
+    s[a..b].split(',').map(|x| x.trim()).filter(|x| !x.is_empty()).map(|x| x.parse::<usize>().map_err(|e| format!("{}: {}", x, e))).collect()
+}
+fn dbg_num(s: &str, field: &str) -> Result<usize, String> {
+    let key = format!("{}: ", field);
+    let a = s.rfind(&key).ok_or_else(|| format!("field {} not found in Debug output", field))? + key.len();
+    let t: String = s[a..].chars().take_while(|c| c.is_ascii_digit()).collect();
+    t.parse::<usize>().map_err(|e| format!("{}: {}", field, e))
+}
+
+/// `inv()` of contracts/select.lookup.vc, clause by clause, over (words, len) and the parsed fields; `zeros`: the structure selects zeros
+fn check_adapt_inv(name: &str, dbg: &str, words: &[usize], len: usize, zeros: bool) -> Result<(), String> {
+    let bit = |p: usize| -> bool { ((words[p / 64] >> (p % 64)) & 1 != 0) != zeros };
+    let nbits = words.len() * 64;
+    let mut pref = vec![0usize; nbits + 1];
+    for p in 0..nbits { pref[p + 1] = pref[p] + bit(p) as usize; }
+    check_adapt_inv_with(name, dbg, nbits, pref[len], &|p| pref[p], &bit)
+}
+
+/// the same over oracles: rank(p) = number of selected bits before p (p <= nbits), bit(p) for p < nbits
+fn check_adapt_inv_with(name: &str, dbg: &str, nbits: usize, num: usize, rank: &dyn Fn(usize) -> usize, bit: &dyn Fn(usize) -> bool) -> Result<(), String> {
+    let inv = dbg_list(dbg, "inventory")?; let sp = dbg_list(dbg, "spill")?;
+    // the const-parameter variants keep L and M in the type: the caller passes them in the name as `<L,M>`; S16 is the documented L.saturating_sub(M + 2)
+    let (l, s16, m) = if dbg.contains("log2_ones_per_inventory") { (dbg_num(dbg, "log2_ones_per_inventory")?, dbg_num(dbg, "log2_ones_per_sub16")?, dbg_num(dbg, "log2_u64_per_subinventory")?) }
+        else { let a = name.find('<').ok_or("no parameters")?; let t: Vec<usize> = name[a + 1..name.find('>').ok_or("no parameters")?].split(',').map(|x| x.trim().parse().unwrap()).collect(); (t[0], t[0].saturating_sub(t[1] + 2), t[1]) };
+    if dbg.contains("ones_per_inventory_mask") && (dbg_num(dbg, "ones_per_inventory_mask")? != (1usize << l) - 1 || dbg_num(dbg, "ones_per_sub16_mask")? != (1usize << s16) - 1) { return Err(format!("{}: masks do not match the logarithms", name)); }
+    let e = |msg: String| -> Result<(), String> { Err(format!("{}: A-SEL (inv of select.lookup) does not hold: {}", name, msg)) };
+    if !(l < 60 && m <= l && s16 <= l) { return e(format!("parameters L={} M={} S16={}", l, m, s16)); }
+    let u64s = 1usize << m;
+    let hint_ok = |p: usize, r: usize| -> bool { p < nbits && rank(p) == r };
+    let sel_ok = |p: usize, r: usize| -> bool { p < nbits && bit(p) && rank(p) == r };
+    let u16v = |a: &Vec<usize>, base: usize, k: usize| -> Option<usize> { <[usize]>::get(a, base + k / 4).map(|w| (w >> (16 * (k % 4))) & 0xFFFF) };
+    let u32v = |a: &Vec<usize>, base: usize, k: usize| -> Option<usize> { <[usize]>::get(a, base + k / 2).map(|w| (w >> (32 * (k % 2))) & 0xFFFF_FFFF) };
+    let getv = |w: usize| w % 0x4000_0000_0000_0000;
+    let mut j = 0usize;
+    while (j << l) < num {
+        let s = j * (u64s + 1);
+        if !(s + u64s + 1 < inv.len()) { return e(format!("entry {} ends beyond the inventory ({} words)", j, inv.len())); }
+        let w = inv[s]; let base = j << l;
+        if let Ok(t) = std::env::var("WITNESS_SELFTEST") { if (t == "32" && w >= 0x8000_0000_0000_0000 && w < 0xC000_0000_0000_0000) || (t == "64" && w >= 0xC000_0000_0000_0000) { return e(format!("selftest: class {} entry seen", t)); } }
+        for sub in 0..(1usize << l) {
+            if base + sub >= num { break; }
+            if w < 0x8000_0000_0000_0000 {
+                let k = sub >> s16;
+                match u16v(&inv, s + 1, k) { Some(o) if hint_ok(w + o, base + (k << s16)) => {}, x => return e(format!("16-bit entry {} sub {}: field {:?}", j, sub, x)) }
+            } else if w < 0xC000_0000_0000_0000 {
+                let (pos, nxt) = (getv(w), getv(inv[s + u64s + 1]));
+                if nxt < pos || nxt - pos < 0x10000 { return e(format!("32-bit entry {} has span {}", j, nxt.wrapping_sub(pos))); }
+                let s32 = s16.saturating_sub(((nxt - pos) >> 15).ilog2() as usize + 1);
+                let k = sub >> s32; let hr = base + (k << s32);
+                let o = if k < (u64s - 1) * 2 { u32v(&inv, s + 2, k) } else { u32v(&sp, inv[s + 1], k - (u64s - 1) * 2) };
+                match o { Some(o) if hint_ok(pos + o, hr) => {}, x => return e(format!("32-bit entry {} sub {}: field {:?}", j, sub, x)) }
+            } else {
+                let p = if sub == 0 { Some(getv(w)) } else if sub < u64s { <[usize]>::get(&inv, s + 1 + sub).copied() } else { <[usize]>::get(&sp, inv[s + 1] + sub - u64s).copied() };
+                match p { Some(p) if sel_ok(p, base + sub) => {}, x => return e(format!("64-bit entry {} sub {}: position {:?}", j, sub, x)) }
+            }
+        }
+        j += 1;
+    }
+    Ok(())
+}
+
+/// input: as for select_all ([len, pushed_before_pops, density or pattern, seed])
+fn inv_case(inp: &[u64]) -> Result<(), String> {
+    let (len, total, dens, seed) = (inp[0] as usize, (inp[1] as usize).max(inp[0] as usize), inp[2], inp[3]);
+    let b = make_bits(len, total, dens, seed);
+    let words: Vec<usize> = b.as_ref().to_vec();
+    let nb = || -> AddNumBits<BitVec> { b.clone().into() };
+    // self-test of the checker (WITNESS_SELFTEST=1): the same structures read with the wrong field order must NOT satisfy the invariant
+    if std::env::var("WITNESS_SELFTEST").map(|t| t == "1").unwrap_or(false) { let w2: Vec<usize> = words.iter().map(|w| w.rotate_left(1)).collect(); return check_adapt_inv("selftest", &format!("{:?}", SelectAdapt::new(nb(), 3)), &w2, len, false); }
+    check_adapt_inv("SelectAdapt(3)", &format!("{:?}", SelectAdapt::new(nb(), 3)), &words, len, false)?;
+    check_adapt_inv("SelectAdapt::with_inv(4,1)", &format!("{:?}", SelectAdapt::with_inv(nb(), 4, 1)), &words, len, false)?;
+    check_adapt_inv("SelectAdapt::with_inv(9,0)", &format!("{:?}", SelectAdapt::with_inv(nb(), 9, 0)), &words, len, false)?;
+    check_adapt_inv("SelectAdapt::with_inv(12,3)", &format!("{:?}", SelectAdapt::with_inv(nb(), 12, 3)), &words, len, false)?;
+    check_adapt_inv("SelectZeroAdapt(3)", &format!("{:?}", SelectZeroAdapt::new(nb(), 3)), &words, len, true)?;
+    check_adapt_inv("SelectZeroAdapt::with_inv(4,1)", &format!("{:?}", SelectZeroAdapt::with_inv(nb(), 4, 1)), &words, len, true)?;
+    check_adapt_inv("SelectZeroAdapt::with_inv(12,2)", &format!("{:?}", SelectZeroAdapt::with_inv(nb(), 12, 2)), &words, len, true)?;
+    check_adapt_inv("SelectAdaptConst<12,3>", &format!("{:?}", SelectAdaptConst::<_, _>::new(nb())), &words, len, false)?;
+    check_adapt_inv("SelectAdaptConst<5,2>", &format!("{:?}", SelectAdaptConst::<_, _, 5, 2>::new(nb())), &words, len, false)?;
+    check_adapt_inv("SelectAdaptConst<5,1>", &format!("{:?}", SelectAdaptConst::<_, _, 5, 1>::new(nb())), &words, len, false)?;
+    check_adapt_inv("SelectAdaptConst<9,0>", &format!("{:?}", SelectAdaptConst::<_, _, 9, 0>::new(nb())), &words, len, false)?;
+    check_adapt_inv("SelectZeroAdaptConst<12,3>", &format!("{:?}", SelectZeroAdaptConst::<_, _>::new(nb())), &words, len, true)?;
+    check_adapt_inv("SelectZeroAdaptConst<5,2>", &format!("{:?}", SelectZeroAdaptConst::<_, _, 5, 2>::new(nb())), &words, len, true)?;
+    check_adapt_inv("SelectZeroAdaptConst<4,1>", &format!("{:?}", SelectZeroAdaptConst::<_, _, 4, 1>::new(nb())), &words, len, true)?;
+    Ok(())
 }
